@@ -34,6 +34,12 @@ def tie_a(prop, build_dir, tag):
     return ok, out, obs
 
 
+class HeapSuite(S.Suite):
+    name = "heap"
+    worker = "w_heap.py"
+    skip_keys = ("impl", "hist", "op")
+
+
 def run(prop, tier, seed, replay=None):
     v = C.Verdict(prop, tier, seed)
     family = FAMILY[prop]
@@ -41,6 +47,8 @@ def run(prop, tier, seed, replay=None):
     suite = ExprSuite()
     if replay:
         payload = json.load(open(os.path.join(C.VERIF, replay) if not os.path.isabs(replay) else replay))
+        if payload.get("suite") == "heap":
+            return S.do_replay_cases(HeapSuite(), prop, "c12", pure, replay)
         if payload.get("suite") == "mgr":
             import suite_mgr
             return S.do_replay(suite_mgr.Mgr(), prop, payload.get("family", "c11"), pure, replay)
@@ -122,6 +130,44 @@ def run(prop, tier, seed, replay=None):
                 mgr_lines += nl
                 mgr_diffs += [(mpref, x) for x in d]
 
+    # ---- C12's independence clause: object graphs with sharing and cycles held by a real manager, around a real
+    #      pickle round trip, replayed on the heap model XModel/PickleHeap.lean (suite `heap`) ----
+    heap_diffs, heap_lines, heap_failures = [], 0, []
+    if prop == "C12":
+        hs = HeapSuite()
+        nh = 1600 if tier == "quick" else 48000
+        hjobs, hprefs = [], []
+        for j in range(C.NPROC):
+            hpref = os.path.join(sc, "C12_heap_%d" % j)
+            hjobs.append((S.worker_argv(hs, "c12", seed * 1000 + 800 + j, max(1, nh // C.NPROC), hpref, ["--fixed"] if j == 0 else []),
+                          C.py_env(pure, (seed * 31 + j) % 1000)))
+            hprefs.append(hpref)
+        C.run_jobs(hjobs)
+        for hpref in hprefs:
+            res = json.load(open(hpref + ".res.json"))
+            for k, val in res["stats"].items():
+                if isinstance(val, (int, float)):
+                    stats_total["heap:" + k] = stats_total.get("heap:" + k, 0) + val
+            heap_failures += [(hpref, fl) for fl in res["failures"] if fl["property"] == prop]
+            if ok:
+                C.run_driver("heap", hpref + ".ops.jsonl", hpref + ".model.jsonl")
+                for o, m in zip(S.load_lines(hpref + ".ops.jsonl"), S.load_lines(hpref + ".model.jsonl")):
+                    if o.get("impl") is None:
+                        continue
+                    heap_lines += 1
+                    d = None
+                    if "bad-op" in m:
+                        d = ("bad-op", None, m["bad-op"])
+                    elif not (m.get("wf") and m.get("fresh")):
+                        d = ("hypotheses", "a heap built from real objects is well formed and the copy is fresh", {"wf": m.get("wf"), "fresh": m.get("fresh")})
+                    else:
+                        for f in ("canon0", "canon_copy", "final_orig", "final_copy"):
+                            if m[f] != o["impl"][f]:
+                                d = (f, o["impl"][f], m[f])
+                                break
+                    if d:
+                        heap_diffs.append((hpref, {"hist": o["hist"], "field": d[0], "impl": d[1], "model": d[2], "op": "case"}))
+
     seen = set()
     for pref, bdir, fl in failures:
         key = (fl["kind"], fl.get("known"))
@@ -132,6 +178,14 @@ def run(prop, tier, seed, replay=None):
         v.failing_input(fl, {"suite": "expr", "family": family, "ops": case})
     for mpref, fl in mgr_failures[:3]:
         v.failing_input(fl, {"suite": "mgr", "family": "c11", "ops": S.history_ops(suite_mgr.Mgr(), mpref, fl["hist"])})
+    for hpref, fl in heap_failures[:3]:
+        v.failing_input(fl, {"suite": "heap", "family": "c12", "ops": S.history_ops(HeapSuite(), hpref, fl["hist"])})
+    if not v.violations:
+        if heap_diffs:
+            hpref, d0 = heap_diffs[0]
+            v.broken("correspondence: heap model and real pickle disagree on `%s`" % d0["field"],
+                     {"suite": "heap", "family": "c12", "ops": S.history_ops(HeapSuite(), hpref, d0["hist"]),
+                      "first_divergence": d0, "n_diverging_cases": len(heap_diffs)})
     if not v.violations:
         if lean_problems:
             v.broken("lean: " + "; ".join(lean_problems)[:600], {"suite": "expr", "theorem_or_obligation": lean_problems[:5]})
@@ -162,9 +216,10 @@ def run(prop, tier, seed, replay=None):
                 "pairs, every builtin, every in-place operator in value and expression case, each class x slot) plus random "
                 "trees to depth 5 over ints, floats, bools, complex, numpy scalars; non-trivial = the case built a deferred "
                 "expression and reached its oracle" % family,
-        "samples": samples, "traces_validated_against_impl": nlines + mgr_lines,
+        "samples": samples, "traces_validated_against_impl": nlines + mgr_lines + heap_lines,
         "tie_a_obligations": gen_total, "tie_a_discharged": gen_ok, "tie_a_notes": tie_notes,
-        "correspondence_divergences": len(diffs) + len(mgr_diffs), "oracle_failures": len(failures) + len(mgr_failures),
+        "correspondence_divergences": len(diffs) + len(mgr_diffs) + len(heap_diffs),
+        "oracle_failures": len(failures) + len(mgr_failures) + len(heap_failures),
         "input_distribution": dict(sorted(stats_total.items())), "builds": [b[0] for b in builds], "lean_problems": lean_problems})
     v.assumptions = ["meaning of each primitive Python operator = Python itself (parameter of the theorems)",
                      "numpy scalars or arrays standing to the left of a ref are excluded (numpy owns the operator)"]
